@@ -59,6 +59,18 @@ CHECKS.update({
         note='Trusted: the reference consumer as transcription of TAP 12/13; corners listed as may-classes are not compared.'),
 })
 
+CHECKS.update({
+    'C04': dict(
+        category='exploration', design_ref='DESIGN.md §4 C04',
+        technique='bounded exhaustive enumeration of generated target-graph shapes x layout/default_library/unity settings, a collision table and the repository corpus, each configured by real meson setup and read by an independent Ninja manifest reader',
+        text='Every projgen shape of <= 3 targets (all placements) is configured with the real Ninja backend under layout/default_library/unity '
+             'combinations; build.ninja is parsed by lib/verif/refninja.py (written from the Ninja manual) and checked for undefined rules, duplicate '
+             'outputs (explicit or implicit), cycles, dangling inputs, and reachability of build_by_default targets from all and of test executables / '
+             'test depends from meson-test-prereq (via meson-info). A table of 132 colliding/reserved-name declarations must be rejected with a '
+             'MesonException or yield a valid manifest. The configurable part of test cases/{common,unit,native,linuxlike} is checked the same way.',
+        note='Trusted: refninja as reading of the Ninja manual (ninja is not installed). VS/Xcode backends are not covered.'),
+})
+
 NOT_YET = {}
 
 
